@@ -640,6 +640,73 @@ def _next_chain(n):
     return None
 
 
+def t16(rep):
+    """A halt (never, a failed assert, error, halt n) ends the program on both routes with a failure status, and what the
+    program printed before it is the same.  Two clauses.  (a) The run-time's fiHalt does not return: on its CFG the exit is
+    reached only through exit() -- a code for which it falls out of the switch lets the executable carry on and finish with
+    status 0 where the interpreter stops.  (b) The interpreter's own remarks go to stderr: every call of fintWhere (the
+    backtrace printer, which writes to dbOut = stdout by default) outside the compiler-bug paths is made with dbOut switched to
+    osStderr, as the three exception sites do -- otherwise the interpreter's stdout carries lines the executable never prints."""
+    f = common.extract("foam_c.c", "runtime", trees=["fiHalt"], cfg=["fiHalt"])
+    fn = f.func("fiHalt")
+    cfg = common.CFG(fn)
+    stops = lambda e: e["k"] == "CallExpr" and e.get("callee") in ("exit", "abort", "_exit")
+    if not calls(fn["body"], "exit") or not cfg.noreturn_blocks:
+        raise AnalysisBroken("fiHalt no longer calls exit")
+    p = cfg.path_avoiding(cfg.entry, None, stops)          # a block ending in a non-returning call is not an exit
+    if p is None:
+        rep.ok("T16", "halt-does-not-return")
+    else:
+        rep.violation("T16", "halt-does-not-return", "foam_c.c:%d (fiHalt)" % fn["l"],
+                      "fiHalt can return to the program: for that code the executable carries on after the halt and finishes with "
+                      "status 0, while the interpreter raises the run-time error and exits 1 (halt(-1) from Machine)",
+                      detail={"cfg_path": p[:10]})
+    f2 = common.extract("fint.c", all_trees=True)
+    n = 0
+    for name, fn2 in sorted(f2.funcs.items()):
+        if "body" not in fn2 or not fn2.get("file", "").endswith("fint.c") or name == "fintWhere":
+            continue
+        cs = calls(fn2["body"], "fintWhere")
+        if not cs:
+            continue
+        par = common.parents(fn2["body"])
+        for c in cs:
+            # the statement list this call sits in
+            cur = c
+            blk = None
+            while cur["id"] in par:
+                p_ = par[cur["id"]]
+                if p_["k"] == "CompoundStmt":
+                    blk = p_
+                    break
+                cur = p_
+            if blk is None:
+                raise AnalysisBroken("%s: fintWhere call outside a block" % name)
+            sts = [x for x in blk["c"] if x is not None]
+            i = next((k for k, st in enumerate(sts) if st is cur or any(y is c for y in walk(st))), None)
+            nxt = sts[i + 1] if i is not None and i + 1 < len(sts) else None
+            if nxt is not None and any(y["k"] == "CallExpr" and y.get("callee") in ("bug", "bugBadCase") for y in walk(nxt)):
+                continue            # compiler-bug path: the process dies with a bug report
+            if any(y["k"] == "CallExpr" and y.get("callee") in ("bug", "bugBadCase") for y in walk(cur)) and cur is not c:
+                continue
+            n += 1
+            to_err = False
+            for st in sts[:i or 0]:
+                for y in walk(st):
+                    if y["k"] == "BinaryOperator" and y["op"] == "=" and (strip(y["c"][0]) or {}).get("n") == "dbOut" and \
+                            (strip(y["c"][1]) or {}).get("n") == "osStderr":
+                        to_err = True
+            key = "interpreter-remarks-on-stderr:%s@%d" % (name, c["l"])
+            if to_err:
+                rep.ok("T16", key)
+            else:
+                rep.violation("T16", "interpreter-remarks-on-stderr:%s" % name, "fint.c:%d (%s)" % (c["l"], name),
+                              "the backtrace is printed with dbOut left at stdout: a program that halts (never, failed assert, "
+                              "error) prints a call trace with a raw address on the interpreter's standard output, which the "
+                              "executable's output does not have")
+    rep.floor("backtrace sites of the interpreter outside bug paths", n, 3)
+
+
 def t15(rep):
     """A lexical reference (Lex lev n), an environment reference (Env lev) and the left-hand side of an assignment to a lexical
     all find their frame by following `lev` links from the current environment.  The interpreter unrolls the first levels
@@ -743,6 +810,7 @@ def run(tier, only=None):
     t13(rep)
     t14(rep)
     t15(rep)
+    t16(rep)
     from . import variant_dispatch
     _fg = common.extract("genc.c", all_trees=True)
     for _d, _fl in (("gccExpr", 8), ("gccCmd", 3), ("gccRef", 8)):
